@@ -14,18 +14,21 @@ import (
 	"strings"
 )
 
-const (
-	repo    = "/repo"
-	modPath = "gitee.com/xuesongtao/protoc-go-valid"
-)
+const modPath = "gitee.com/xuesongtao/protoc-go-valid"
 
-var shimRoot = "/verif/shim"
+var (
+	repo     = "/repo" // VERIF_REPO overrides (evaluation of a seeded change in a scratch worktree)
+	shimRoot = "/verif/shim"
+)
 
 func main() {
 	out := flag.String("o", "/verif/.build/overlay.json", "overlay file")
 	flag.Parse()
 	if d := os.Getenv("VERIF_DIR"); d != "" {
 		shimRoot = filepath.Join(d, "shim")
+	}
+	if d := os.Getenv("VERIF_REPO"); d != "" {
+		repo = d
 	}
 	gen := filepath.Join(filepath.Dir(*out), "overlay-src")
 	os.RemoveAll(gen)
